@@ -1,5 +1,6 @@
 import RsyncModel.Filter
 import RsyncModel.DeleteThm
+import RsyncModel.Opts
 /-! # C13 — exclude/include rules filter exactly the named entries -/
 namespace C13
 open Filter Walk
@@ -141,5 +142,61 @@ example :
     excluded [parseRule [45, 32, 100, 47]] [100] false = false ∧
     excluded [parseRule [45, 32, 100, 47]] [100] true = true := by
   refine ⟨by simp [listWalk, excluded, parseRule, ruleMatches, base, Delete.joined, dropSuffixSlash, isWildByte], by decide, by decide, by decide, by decide⟩
+
+/-! ## `--filter=RULE` on the command line (D49)
+
+The rule text of `--filter` travels to the sender unchanged (`Gen.OptTable`: the clause of `OPT_FILTER`). The sender reads
+`- NAME` and `+ NAME` as written — and *every other text as the name of an entry to exclude*. So the client refuses every
+other text: before the repair `P keep`, `: .rsync-filter` or an empty rule were accepted and silently meant something else. -/
+
+/-- how the sender reads a rule that starts with `- ` / `+ `: exclude / include of exactly the rest -/
+theorem minus_rule_read_as_written (rest : Str) :
+    (parseRule (45 :: 32 :: rest)).incl = false ∧ (parseRule (45 :: 32 :: rest)).clearList = false ∧
+    (parseRule (45 :: 32 :: rest)).pattern = dropSuffixSlash rest := by simp [parseRule]
+
+theorem plus_rule_read_as_written (rest : Str) :
+    (parseRule (43 :: 32 :: rest)).incl = true ∧ (parseRule (43 :: 32 :: rest)).clearList = false ∧
+    (parseRule (43 :: 32 :: rest)).pattern = dropSuffixSlash rest := by simp [parseRule]
+
+/-- … and any other text (not starting with `!`) as an *exclude* rule whose pattern is the whole text -/
+theorem other_text_read_as_name (line : Str) (h1 : ∀ r, line ≠ 45 :: 32 :: r) (h2 : ∀ r, line ≠ 43 :: 32 :: r)
+    (h3 : ∀ r, line ≠ 33 :: r) :
+    (parseRule line).incl = false ∧ (parseRule line).clearList = false ∧ (parseRule line).pattern = dropSuffixSlash line := by
+  unfold parseRule
+  split
+  rename_i heq
+  split at heq
+  · exact absurd rfl (h1 _)
+  · exact absurd rfl (h2 _)
+  · exact absurd rfl (h3 _)
+  · simp only [Prod.mk.injEq] at heq
+    obtain ⟨rfl, rfl, rfl⟩ := heq
+    simp
+
+/-- the client's `OPT_FILTER` clause (regenerated: `.ruleChecked`): the rule is stored unchanged if it has one of the three
+forms the sender reads as written (or refuses itself: `!`), otherwise the command line is refused -/
+theorem filter_option_stored_or_refused (arg : Opts.Str) (rest : List Gen.OptTable.Act) (s : Opts.St) :
+    Opts.runActs arg (.ruleChecked :: rest) s =
+      if Opts.filterArgOk arg then Opts.runActs arg rest { s with rules := s.rules ++ [arg] } else .stop .err := rfl
+
+theorem accepted_filter_arg_shape (arg : Opts.Str) (h : Opts.filterArgOk arg = true) :
+    (∃ r, arg = '-' :: ' ' :: r) ∨ (∃ r, arg = '+' :: ' ' :: r) ∨ arg = ['!'] := by
+  unfold Opts.filterArgOk at h
+  split at h
+  · exact Or.inl ⟨_, rfl⟩
+  · exact Or.inr (Or.inl ⟨_, rfl⟩)
+  · exact Or.inr (Or.inr rfl)
+  · cases h
+
+/-- the regenerated clause of `--filter` is the checked one, `--exclude` / `--include` add their own prefix -/
+theorem filter_clauses_pinned :
+    (Gen.OptTable.mainCases.filter (fun c => c.1 == 1005)).map (fun c => c.2.length) = [1] ∧
+    (Gen.OptTable.mainCases.filter (fun c => c.1 == 1005)).all
+      (fun c => match c.2 with | [.ruleChecked] => true | _ => false) = true := by decide
+
+/-- refused: a protect rule, a merge rule, the empty rule, a rule without a space; accepted: `- x`, `+ x/` -/
+example : Opts.filterArgOk "P keep".toList = false ∧ Opts.filterArgOk ": .rsync-filter".toList = false ∧
+    Opts.filterArgOk [] = false ∧ Opts.filterArgOk "-foo".toList = false ∧
+    Opts.filterArgOk "- x".toList = true ∧ Opts.filterArgOk "+ x/".toList = true := by decide
 
 end C13
